@@ -251,10 +251,11 @@ Prepared(it) ==
 
 -----------------------------------------------------------------------------
 (* Stage order *)
-StageSeq == << "oe", "imacro", "ds", "def", "case", "cond", "rep", "sw", "dom", "use", "repl", "omit", "stag" >>
+StageSeq == << "oe", "nbegin", "imacro", "ds", "def", "case", "cond", "rep", "sw", "dom", "use", "repl", "omit", "stag" >>
 
 HasStage(it, st) ==
   CASE st = "oe"   -> it.oe.m # "no"
+    [] st = "nbegin" -> it.nm # ""          \* i18n:name: the element's output is a named block of the enclosing translation
     [] st = "imacro" -> it.dm # ""          \* metal:define-macro: the element is rendered by calling its macro
     [] st = "ds"   -> it.ds # ""            \* metal:define-slot
     [] st = "use"  -> it.um.m # "no"        \* metal:use-macro / extend-macro
@@ -277,12 +278,15 @@ FirstStage(it) == FirstFrom(it, 1)
 F  == ctl[Len(ctl)]
 Frame(i, st) == [i |-> i, st |-> st, j |-> 1, c |-> i + 1, it |-> 0, its |-> <<>>, oe |-> FALSE,
                  l0 |-> LookupAll, g0 |-> glob, n0 |-> Len(out), rec |-> FALSE,
-                 kind |-> "elem", fn |-> F.fn, ke |-> 0]
+                 kind |-> "elem", fn |-> F.fn, ke |-> 0, nmark |-> 0, ib |-> mx.i18n, trd |-> Len(mx.tr)]
 It == items[F.i]
 SetF(f) == [ctl EXCEPT ![Len(ctl)] = f]
 Goto(st) == SetF([F EXCEPT !.st = st, !.j = 1])
 GotoKids == SetF([F EXCEPT !.st = "kids", !.j = 1, !.c = F.i + 1])
 GotoUndef == SetF([F EXCEPT !.st = "undef", !.j = Len(It.def)])
+
+\* i18n:translate applies to static content only (not with tal:content / tal:replace)
+Translating(it) == it.tr.m = "yes" /\ it.sub.m = "none"
 
 TagShown == It.tag = "el" /\ (It.omit.m = "no" \/ (It.omit.m = "expr" /\ ~cells[COmit(F.i)].b))
 
@@ -293,7 +297,8 @@ Init ==
   /\ pid \in { [id |-> n, p |-> Progs[n]] : n \in 1..Len(Progs) }
   /\ ctl = << [i |-> 0, st |-> "kids", j |-> 1, c |-> 1, it |-> 0, its |-> <<>>, oe |-> FALSE,
                 l0 |-> pid.p.init, g0 |-> [n \in Names |-> Undef], n0 |-> 0, rec |-> FALSE,
-                kind |-> "root", fn |-> 1, ke |-> pid.p.main + 1] >>
+                kind |-> "root", fn |-> 1, ke |-> pid.p.main + 1, nmark |-> 0,
+                ib |-> [d |-> "", c |-> "", t |-> ""], trd |-> 0] >>
   /\ envs = << pid.p.init >>
   /\ glob = [n \in Names |-> Undef]
   /\ rep = [n \in Names |-> NoRep]
@@ -305,7 +310,7 @@ Init ==
   /\ res = "run"
   /\ mx = [heap |-> <<>>, senv |-> << [s \in pid.p.slots |-> 0] >>,
            acts |-> << [sv |-> [s \in pid.p.slots |-> NoFill], tok |-> NoSite] >>,
-           i18n |-> [d |-> "", c |-> "", t |-> ""], tstk |-> <<>>]
+           i18n |-> [d |-> "", c |-> "", t |-> ""], tstk |-> <<>>, tr |-> <<>>]
 
 SetCell(c, v) == [x \in DOMAIN cells \cup {c} |-> IF x = c THEN v ELSE cells[x]]
 
@@ -356,7 +361,7 @@ KDone ==    \* children exhausted
   /\ (F.i = 0 => Len(ctl) = 1)        \* a whole template used as macro returns through MReturn
   /\ IF F.i = 0
      THEN /\ res' = "ok" /\ ctl' = <<>>
-     ELSE /\ ctl' = Goto("etag") /\ UNCHANGED res
+     ELSE /\ ctl' = Goto(IF Translating(It) THEN "tend" ELSE "etag") /\ UNCHANGED res
   /\ UNCHANGED <<pid, mx, envs, glob, rep, cells, out, log, tok, exc>>
 
 -----------------------------------------------------------------------------
@@ -376,7 +381,7 @@ EvalAt(site, e, OnVal(_)) ==
     /\ tok' = site
     /\ IF IsExc(a.r)
        THEN /\ RaiseAt(site, a.r.c)
-            /\ UNCHANGED <<ctl, envs, glob, rep, cells, out>>
+            /\ UNCHANGED <<ctl, envs, glob, rep, cells, out, mx>>
        ELSE /\ OnVal(a.r) /\ UNCHANGED exc
 
 SDef ==     \* visit_Define / _enter_assignment / visit_Assignment
@@ -647,12 +652,14 @@ SCont ==    \* tal:content via _make_content_node (default -> the children)
   /\ IF It.sub.m # "content"
      THEN /\ ctl' = GotoKids
           /\ UNCHANGED <<envs, glob, rep, cells, out, log, tok, exc>>
+          \* visit_Translate: the content is rendered into a stream of its own
+          /\ mx' = IF Translating(It) THEN [mx EXCEPT !.tr = Append(mx.tr, [mark |-> Len(out), names |-> <<>>])] ELSE mx
      ELSE LET K(v) == /\ ctl' = IF v = VDefault THEN GotoKids ELSE Goto("etag")
                       /\ out' = IF v = VDefault \/ v = VNone THEN out
                                 ELSE Append(out, ValAtom(v, IF It.sub.s THEN "struct" ELSE "text", F.i))
-                      /\ UNCHANGED <<envs, glob, rep, cells>>
+                      /\ UNCHANGED <<envs, glob, rep, cells, mx>>
           IN EvalAt(Site(F.i, "sub", 0), It.sub.e, K)
-  /\ UNCHANGED <<pid, mx, res>>
+  /\ UNCHANGED <<pid, res>>
 
 SEtag ==    \* visit_End
   /\ Running /\ F.st = "etag"
@@ -667,12 +674,14 @@ SLoop ==    \* end of the loop body: index -= 1; separator unless last
           /\ UNCHANGED out
      ELSE /\ ctl' = Goto("iter")
           /\ out' = IF F.it < Len(F.its) THEN Append(out, [a |-> "sep", i |-> F.i]) ELSE out
-  /\ UNCHANGED <<pid, mx, envs, glob, rep, cells, log, tok, exc, res>>
+  \* visit_Domain / visit_TxContext / visit_Target restore the previous settings
+  /\ mx' = IF It.i18n.m = "yes" THEN [mx EXCEPT !.i18n = F.ib] ELSE mx
+  /\ UNCHANGED <<pid, envs, glob, rep, cells, log, tok, exc, res>>
 
 SUndef ==   \* _leave_assignment in reverse order
   /\ Running /\ F.st = "undef"
   /\ IF F.j = 0 \/ Len(It.def) = 0
-     THEN /\ ctl' = Goto("done") /\ UNCHANGED envs
+     THEN /\ ctl' = Goto(IF It.nm # "" THEN "nend" ELSE "done") /\ UNCHANGED envs
      ELSE LET d == It.def[F.j] IN
           /\ envs' = IF d.g THEN envs
                      ELSE SetLocal(envs, d.n, Restored(d.n, cells[CBk(F.i, F.j)]))
@@ -711,7 +720,8 @@ Unwind ==
           /\ out' = SubSeq(out, 1, cells[CFb(F.i)].n)
           /\ ctl' = SetF([F EXCEPT !.st = "fb", !.j = 1, !.oe = FALSE, !.rec = TRUE])
           /\ exc' = NoExc
-          /\ UNCHANGED <<res, mx>>
+          /\ mx' = [mx EXCEPT !.tr = SubSeq(mx.tr, 1, F.trd)]   \* abandoned translation streams
+          /\ UNCHANGED res
      ELSE IF Len(ctl) = 1
      THEN /\ res' = "fail" /\ ctl' = <<>>
           /\ UNCHANGED <<envs, log, out, exc, mx>>
@@ -863,7 +873,7 @@ MReturn ==  \* the macro function returns
                             Restored("macroname", cells[CMacroName(caller.i)])]
              /\ ctl' = [SubSeq(ctl, 1, n - 1) EXCEPT ![n - 1].st = "loop", ![n - 1].j = 1]
         ELSE /\ envs' = SubSeq(envs, 1, Top - 2) \o <<lay>>
-             /\ ctl' = [SubSeq(ctl, 1, n - 1) EXCEPT ![n - 1].st = "done", ![n - 1].j = 1]
+             /\ ctl' = [SubSeq(ctl, 1, n - 1) EXCEPT ![n - 1].st = IF items[caller.i].nm # "" THEN "nend" ELSE "done", ![n - 1].j = 1]
   /\ LET se == SubSeq(mx.senv, 1, Len(mx.senv) - 1)
          caller == ctl[Len(ctl) - 1]
      IN mx' = [mx EXCEPT !.senv = IF caller.st = "use" /\ "FillerOutlivesUse" \notin Dev /\ ~items[caller.i].um.ext
@@ -895,12 +905,56 @@ FReturn ==  \* the filler returns: the define-slot element is done
   /\ UNCHANGED <<pid, glob, rep, cells, out, log, tok, exc, res>>
 
 -----------------------------------------------------------------------------
+(* I18N.  Domain / context / target are lexically scoped settings (saved   *)
+(* and restored around the element); i18n:translate renders the content    *)
+(* into a stream of its own, from which the message id is computed; each   *)
+(* i18n:name child renders into its own stream, leaves ${name} in the       *)
+(* translation stream and its markup in the mapping.                       *)
+
+SDom ==     \* visit_Domain / visit_TxContext / visit_Target
+  /\ Running /\ F.st = "dom"
+  /\ mx' = [mx EXCEPT !.i18n = [d |-> IF It.i18n.d # "" THEN It.i18n.d ELSE mx.i18n.d,
+                                 c |-> IF It.i18n.c # "" THEN It.i18n.c ELSE mx.i18n.c,
+                                 t |-> IF It.i18n.t # "" THEN It.i18n.t ELSE mx.i18n.t]]
+  /\ ctl' = SetF([F EXCEPT !.st = NextStage(It, "dom"), !.j = 1, !.ib = mx.i18n])
+  /\ UNCHANGED <<pid, envs, glob, rep, cells, out, log, tok, exc, res>>
+
+SNameBegin ==   \* visit_Name: a stream of its own for the named block
+  /\ Running /\ F.st = "nbegin"
+  /\ ctl' = SetF([F EXCEPT !.st = NextStage(It, "nbegin"), !.j = 1, !.nmark = Len(out)])
+  /\ UNCHANGED <<pid, mx, envs, glob, rep, cells, out, log, tok, exc, res>>
+
+SNameEnd ==     \* the block's markup goes into the mapping, ${name} into the translation stream
+  /\ Running /\ F.st = "nend"
+  /\ LET cap == SubSeq(out, F.nmark + 1, Len(out))
+         n == Len(mx.tr)
+     IN /\ out' = Append(SubSeq(out, 1, F.nmark), [a |-> "nameph", n |-> It.nm])
+        /\ mx' = IF n = 0 THEN mx
+                 ELSE [mx EXCEPT !.tr[n].names = Append(mx.tr[n].names, [n |-> It.nm, cap |-> cap])]
+  /\ ctl' = Goto("done")
+  /\ UNCHANGED <<pid, envs, glob, rep, cells, log, tok, exc, res>>
+
+STransEnd ==    \* visit_Translate: compute the message id, call the translation function
+  /\ Running /\ F.st = "tend"
+  /\ LET n == Len(mx.tr)
+         t == mx.tr[n]
+         cap == SubSeq(out, t.mark + 1, Len(out))
+         ev == [ev |-> "translate", id |-> It.tr.id, cap |-> cap, names |-> t.names,
+                d |-> mx.i18n.d, c |-> mx.i18n.c, t |-> mx.i18n.t, act |-> Act, i |-> F.i]
+     IN /\ log' = Append(log, ev)
+        /\ out' = Append(SubSeq(out, 1, t.mark), [a |-> "trans", e |-> Len(log) + 1])
+        /\ mx' = [mx EXCEPT !.tr = SubSeq(mx.tr, 1, n - 1)]
+  /\ ctl' = Goto("etag")
+  /\ UNCHANGED <<pid, envs, glob, rep, cells, tok, exc, res>>
+
+-----------------------------------------------------------------------------
 Next ==
   \/ KEnter \/ KText \/ KDone
   \/ SOe \/ SDef \/ SCase \/ SCond \/ SRep \/ SIter \/ SSw \/ SRepl \/ SOmit
   \/ SStag \/ SDicts \/ SAttr \/ SStagEnd \/ SCont \/ SEtag \/ SLoop \/ SUndef \/ SDone
   \/ Unwind \/ SFb
   \/ SIMacro \/ SUse \/ MReturn \/ SDs \/ FReturn
+  \/ SDom \/ SNameBegin \/ SNameEnd \/ STransEnd
 
 Spec == Init /\ [][Next]_vars
 
@@ -925,6 +979,12 @@ WellBracketed == res = "ok" => Balanced(out, 1, <<>>)
 SeparatorCount ==
   (Running /\ F.st = "iter" /\ F.it >= Len(F.its) /\ Len(F.its) > 0 /\ exc = NoExc) =>
      Cardinality({ n \in F.n0 + 1..Len(out) : out[n].a = "sep" /\ out[n].i = F.i }) = Len(F.its) - 1
+
+\* C10: the translation function is called exactly once per activation of an
+\* element marked i18n:translate (static content)
+TransEvents == { n \in 1..Len(log) : log[n].ev = "translate" }
+OncePerTranslateElement ==
+  \A m, n \in TransEvents : (m # n /\ log[m].i = log[n].i) => log[m].act # log[n].act
 
 \* C07: every attribute name occurs at most once in an emitted start tag
 \* (names compared as emitted; a dictionary key equal to a later named entry is
